@@ -59,6 +59,7 @@ var (
 	opDataX    = MOp{K: "data", PID: 0x1fe, Len: 10}
 	opPktNull  = MOp{K: "pkt", Pkt: "null"}
 	opPktAF    = MOp{K: "pkt", Pkt: "afonly"}
+	opPktOwn   = MOp{K: "pkt", Pkt: "ownpid"}
 	opPktShort = MOp{K: "pkt", Pkt: "short"}
 	opPktShAF  = MOp{K: "pkt", Pkt: "shortaf"}
 	opPktBig   = MOp{K: "pkt", Pkt: "big"}
@@ -76,7 +77,7 @@ var muxFullAlpha = []MOp{
 	opAddA, opAddB, opAddAuto, opRmA, opRmB, opRmX, opPcrA, opPcrB, opPcrX, opTables,
 	opDataA1, opDataAfit, opDataAs1, opDataAs2, opDataA3, opDataA17, opDataARAI, opDataAprv, opDataAnor, opDataAhdr,
 	opDataB1, opDataBRAI, opDataAuto, opDataX,
-	opPktNull, opPktAF, opPktShort, opPktBig, opPktStale, opPktWrap, opPktPriv0, opPktAF252, opDataApr0, opAddMany, opRmMany,
+	opPktNull, opPktOwn, opPktAF, opPktShort, opPktBig, opPktStale, opPktWrap, opPktPriv0, opPktAF252, opDataApr0, opAddMany, opRmMany,
 }
 
 // A smaller alphabet for deeper searches.
